@@ -816,18 +816,29 @@ func checkF8(c *fw.Ctx) {
 				} else if len(call.Common().Args) > 0 {
 					ev = fw.Sig(call.Common().Args[0])
 				}
-				guarded := ""
-				for _, f := range fw.DomConds(b) {
-					t := f.Sig
-					switch {
-					case !f.Taken && strings.HasSuffix(t, ".StateKey("+ev+") == nil)"):
-						guarded = "nil test"
-					case f.Taken && strings.HasSuffix(t, ".StateKey("+ev+") != nil)"):
-						guarded = "nil test"
-					case f.Taken && strings.Contains(t, ".StateKeyEquals("+ev+","):
-						guarded = "StateKeyEquals"
-					case f.Taken && strings.Contains(t, ".Membership("+ev+")#1 == nil)"), !f.Taken && strings.Contains(t, ".Membership("+ev+")#1 != nil)"):
-						guarded = "Membership() succeeded (it refuses events without a state key)"
+				guarded := stateKeyGuard(b, ev)
+				// the event is a parameter of an unexported helper: the guard may sit at every call site
+				if guarded == "" && strings.HasPrefix(ev, "param:") && fn.Object() != nil && !fn.Object().Exported() {
+					idx := -1
+					for i, p := range fn.Params {
+						if fw.Sig(p) == ev {
+							idx = i
+						}
+					}
+					sites, okAll := 0, idx >= 0
+					for _, caller := range c.P.SrcFuncs() {
+						for _, cs := range fw.Calls(caller) {
+							if cs.Common().StaticCallee() != fn || idx >= len(cs.Common().Args) {
+								continue
+							}
+							sites++
+							if stateKeyGuard(cs.Block(), fw.Sig(cs.Common().Args[idx])) == "" {
+								okAll = false
+							}
+						}
+					}
+					if okAll && sites > 0 {
+						guarded = fmt.Sprintf("guarded at all %d call sites of the helper", sites)
 					}
 				}
 				// an earlier nil test in the same function that returns / continues on nil
@@ -917,4 +928,23 @@ func unknownGuardOn(b *ssa.BasicBlock, ev string) string {
 		}
 	}
 	return ""
+}
+
+// stateKeyGuard: block b is only reached when the event rendered as ev has a state key.
+func stateKeyGuard(b *ssa.BasicBlock, ev string) string {
+	guarded := ""
+	for _, f := range fw.DomConds(b) {
+		t := f.Sig
+		switch {
+		case !f.Taken && strings.HasSuffix(t, ".StateKey("+ev+") == nil)"):
+			guarded = "nil test"
+		case f.Taken && strings.HasSuffix(t, ".StateKey("+ev+") != nil)"):
+			guarded = "nil test"
+		case f.Taken && strings.Contains(t, ".StateKeyEquals("+ev+","):
+			guarded = "StateKeyEquals"
+		case f.Taken && strings.Contains(t, ".Membership("+ev+")#1 == nil)"), !f.Taken && strings.Contains(t, ".Membership("+ev+")#1 != nil)"):
+			guarded = "Membership() succeeded (it refuses events without a state key)"
+		}
+	}
+	return guarded
 }
